@@ -16,10 +16,10 @@ TEXT = {
  "C07": ("Verus discharges, for every buffer content and decoder state, the panic-freedom obligations of each sync decoder under contract: every Buf read/advance/split/index has enough bytes (shim preconditions = documented panics of `bytes`), no reachable panic!/unwrap, no arithmetic overflow, loops terminate.", "7 C07"),
  "C11": ("Verus proves, for all inputs and states, that PacketWindowFilter::{new,default,reset,validate_packet_id} meet a raw contract; spec-level lemmas (lemma_step, lemma_history) derive the property statement for every finite sequence of 64-bit ids. No bound. The callers: the client's DatagramPacketCodec::decode returns Ok(None) for a refused id; the server's per-session task UdpAssociateContext::relay (async fn with tokio::select!, taken as sequential code by rewrite R29, its I/O recorded in a ghost log) steps the window exactly once per client datagram in arrival order, forwards a datagram iff its id is accepted, and never leaves its loop because of a refusal.", "7 C11"),
  "C12": ("Verus proves the nonce generator is +1 modulo 2^96 on the little-endian counter (carry-chain loop invariant + lemma_inc_val), that every Authenticator seal/open uses exactly the next counter value, that the chunk encoder advances it twice per chunk, and lemma_nonces_distinct proves pairwise distinctness for fewer than 2^96 uses. The 2022 UDP encoders put exactly the session's packet id into the packet and seal under the key derived for this session id; the server's relay task increments its packet id by one per reply and ends the session rather than reuse one. Freshness of RNG draws is assumed.", "7 C12"),
- "C13": ("Verus proves the SOCKS5 handshake decoders return the exact RFC 1928 address of a complete request, consume exactly its bytes, and return Ok(None) consuming nothing for every proper prefix; malformed requests give Err. recognize_http (request-target -> tunnel target) is proved panic-free for every input and, for every request-target with an optional scheme and a non-empty authority, to name exactly the host and port of the RFC 3986 authority (port 80 default for plain HTTP) or refuse; std str operations are byte-level shims (R23). Protocol sniffing by peek, httparse and the async handshake I/O are out of reach.", "7 C13"),
+ "C13": ("Verus proves the SOCKS5 handshake decoders return the exact RFC 1928 address of a complete request, consume exactly its bytes, and return Ok(None) consuming nothing for every proper prefix; malformed requests give Err. recognize_http (request-target -> tunnel target) is proved panic-free for every input and, for every request-target with an optional scheme and a non-empty authority, to name exactly the host and port of the RFC 3986 authority (port 80 default for plain HTTP) or refuse; std str operations are byte-level shims (R23). The async handshake of an accepted connection (get_request_addr, recognize) is verified as sequential code (rewrite R29) over a TcpStream described by a ghost inbox/outbox: sniffing consumes nothing and takes the SOCKS5 path exactly when the first byte is 5; a CONNECT request is consumed exactly up to its first blank line however it is segmented and answered with exactly the 200 line; plain HTTP is left untouched on the stream; the SOCKS5 reply handed to no_auth is 'succeeded' with the connection's local address. httparse is an oracle; socks5::handshake::server::no_auth (FramedRead/FramedWrite) is assumed.", "7 C13"),
  "C14": ("Verus proves address encode refines enc5 (RFC 1928 layout), decode refines parse5 for every byte string (exact consumption, Err otherwise), lemma_addr5_roundtrip proves parse5(enc5(v)++tail) = (v,|enc5(v)|) for all representable addresses and tails, and lemma_abs_injective that equal abstract values mean the identical address.", "7 C14"),
 }
-NOTE = "Trusted: Verus/Z3; the token-level extractor and its rewrites R1-R30 (logged per run in evidence); shim contracts on bytes/std/AEAD primitives (listed in evidence.coverage.trusted_base); machine integers modelled exactly, usize = 64 bit. Async callers are not verified."
+NOTE = "Trusted: Verus/Z3; the token-level extractor and its rewrites R1-R30 (R29: async task bodies as sequential code) (logged per run in evidence); shim contracts on bytes/std/AEAD primitives (listed in evidence.coverage.trusted_base); machine integers modelled exactly, usize = 64 bit. Async callers are not verified."
 NA = {
  "C08": "liveness of async accept/select loops after errors: no contract on tokio tasks is expressible in Verus (no async) or Kani (no runtime/threads)",
  "C09": "thread interleavings over shared state: this family has no concurrency semantics for this code; sequential consequences are decided under C10",
